@@ -233,6 +233,9 @@ def generated_case(rnd):
 
 def run(seed, tier, lean) -> Result:
     res = _run(seed, tier, lean)
+    if lean['build_ok']:
+        # outside the invariants (removed handles, one-sided edges, repeated removals): implementation vs GENERATED code only
+        genexec.run_wild('C09', seed, 150 if tier == 'quick' else 900, res)
     r = random.Random(seed ^ 0xC09)
     for _ in range(150 if tier == 'quick' else 900):
         cs = r.getrandbits(48)
